@@ -72,9 +72,7 @@ def showRes (rs : List Res) : String :=
   let strs := rs.map fun r => showSide r.1 ++ "-" ++ showSide r.2
   " ".intercalate (strs.foldr insertStr [])
 
-def tiesAbove (minW : Rat) (js : List Job) : Bool :=
-  let ss := ((js.filter (!·.certain)).map (·.score)).filter (fun s => !(s < minW))
-  ss.eraseDups.length != ss.length
+def tiesAbove (minW : Rat) (js : List Job) : Bool := !decide (NoScoreTies minW js)
 
 def handleMatch (cmd : String) (rest : List String) : Option String :=
   match cmd with
